@@ -331,49 +331,51 @@ end
 
 /-! ## 3. Schema-erased position trees -/
 
-/-- `pos`/`end_` are byte offsets; `toks` are the node's own tokens (offset, length) — keywords,
-    operators, quotes; `kids` are the children that the node's source text contains, in the order
-    the harness lists them (field order, which is source order for parser output). -/
+/-- `slot` is the index of the parent's field the node sits in; `pos`/`end_` are byte offsets;
+    `toks` are the node's own tokens (offset, length) — keywords, operators, quotes; `kids` are the
+    children that the node's source text contains, in field order (elements of one list field
+    are adjacent and in list order). -/
 inductive PTree
-  | node (id pos end_ : Nat) (toks : List (Nat × Nat)) (kids : List PTree)
+  | node (id slot pos end_ : Nat) (toks : List (Nat × Nat)) (kids : List PTree)
   deriving Repr, Inhabited
 
-def PTree.id : PTree → Nat | .node i _ _ _ _ => i
-def PTree.pos : PTree → Nat | .node _ p _ _ _ => p
-def PTree.end_ : PTree → Nat | .node _ _ e _ _ => e
-def PTree.toks : PTree → List (Nat × Nat) | .node _ _ _ t _ => t
-def PTree.kids : PTree → List PTree | .node _ _ _ _ k => k
+def PTree.id : PTree → Nat | .node i _ _ _ _ _ => i
+def PTree.slot : PTree → Nat | .node _ s _ _ _ _ => s
+def PTree.pos : PTree → Nat | .node _ _ p _ _ _ => p
+def PTree.end_ : PTree → Nat | .node _ _ _ e _ _ => e
+def PTree.toks : PTree → List (Nat × Nat) | .node _ _ _ _ t _ => t
+def PTree.kids : PTree → List PTree | .node _ _ _ _ _ k => k
 
-/-- kids start in non-decreasing order of their start offsets -/
-def startsSorted : List PTree → Bool
+/-- `r a b` for every `a` listed before `b` -/
+def pairwiseB (r : PTree → PTree → Bool) : List PTree → Bool
   | [] => true
-  | [_] => true
-  | a :: b :: rest => decide (a.pos ≤ b.pos) && startsSorted (b :: rest)
+  | a :: rest => rest.all (r a) && pairwiseB r rest
 
-/-- each kid ends before the next one starts -/
-def disjointSorted : List PTree → Bool
-  | [] => true
-  | [_] => true
-  | a :: b :: rest => decide (a.end_ ≤ b.pos) && disjointSorted (b :: rest)
+/-- elements of the same list field start in source order -/
+def startsBefore (a b : PTree) : Bool := a.slot != b.slot || decide (a.pos ≤ b.pos)
+/-- … and do not overlap -/
+def endsBefore (a b : PTree) : Bool := a.slot != b.slot || decide (a.end_ ≤ b.pos)
+
+def tokWithin (t : PTree) (tk : Nat × Nat) : Bool := decide (t.pos ≤ tk.1) && decide (tk.1 + tk.2 ≤ t.end_)
+def kidWithin (t k : PTree) : Bool := decide (t.pos ≤ k.pos) && decide (k.end_ ≤ t.end_)
 
 /-- The facts about one node that only mention the node itself and its direct children. -/
 def localNode (t : PTree) : Bool :=
-  decide (t.pos ≤ t.end_) &&
-  t.toks.all (fun (o, n) => decide (t.pos ≤ o) && decide (o + n ≤ t.end_)) &&
-  t.kids.all (fun k => decide (t.pos ≤ k.pos) && decide (k.end_ ≤ t.end_)) &&
-  startsSorted t.kids
+  decide (t.pos ≤ t.end_) && t.toks.all (tokWithin t) && t.kids.all (kidWithin t) &&
+  pairwiseB startsBefore t.kids
 
 mutual
   def localOk : PTree → Bool
-    | .node id p e toks kids => localNode (.node id p e toks kids) && localOkList kids
+    | .node id s p e toks kids => localNode (.node id s p e toks kids) && localOkList kids
   def localOkList : List PTree → Bool
     | [] => true
     | k :: ks => localOk k && localOkList ks
 end
 
 mutual
+  /-- additionally: elements of one list field do not overlap (no here-document around) -/
   def localDisjoint : PTree → Bool
-    | .node _ _ _ _ kids => disjointSorted kids && localDisjointList kids
+    | .node _ _ _ _ _ kids => pairwiseB endsBefore kids && localDisjointList kids
   def localDisjointList : List PTree → Bool
     | [] => true
     | k :: ks => localDisjoint k && localDisjointList ks
@@ -382,20 +384,27 @@ end
 mutual
   /-- all nodes of the tree, parent first -/
   def PTree.nodes : PTree → List PTree
-    | .node id p e toks kids => .node id p e toks kids :: PTree.nodesList kids
+    | .node id s p e toks kids => .node id s p e toks kids :: PTree.nodesList kids
   def PTree.nodesList : List PTree → List PTree
     | [] => []
     | k :: ks => k.nodes ++ PTree.nodesList ks
 end
 
 /-- The global statement, executed directly (quadratic): every node has `pos ≤ end`, all its tokens
-    and all its descendants lie within it, and its children start in source order. -/
+    and all its descendants (and their tokens) lie within it, and the elements of each of its list
+    fields start in source order. -/
 def globalOk (t : PTree) : Bool :=
   t.nodes.all fun a =>
     decide (a.pos ≤ a.end_) &&
-    a.toks.all (fun (o, n) => decide (a.pos ≤ o) && decide (o + n ≤ a.end_)) &&
-    a.nodes.all (fun d => decide (a.pos ≤ d.pos) && decide (d.end_ ≤ a.end_) && decide (d.pos ≤ d.end_)) &&
-    startsSorted a.kids
+    a.nodes.all (fun d => kidWithin a d && decide (d.pos ≤ d.end_) && d.toks.all (tokWithin a)) &&
+    pairwiseB startsBefore a.kids
+
+/-- The stronger order statement: whatever lies inside an earlier element of a list field ends
+    before anything inside a later element of that field starts. -/
+def globalDisjoint (t : PTree) : Bool :=
+  t.nodes.all fun a =>
+    pairwiseB (fun k1 k2 => k1.slot != k2.slot ||
+      k1.nodes.all (fun d1 => k2.nodes.all (fun d2 => decide (d1.end_ ≤ d2.pos)))) a.kids
 
 /-! ## 4. Line and column of a byte offset, from the source bytes -/
 
